@@ -439,6 +439,49 @@ func runC20(c *Ctx, w *World, r *Report) {
 				}
 			}
 		}
+		// Elem() that feeds the recursion is Elem of the value itself: following a chain (v.Elem().Elem()...) skips the
+		// headers of the pointers or interfaces in between
+		elemOfOther := ""
+		for _, rc := range recCalls {
+			for _, src := range resolvePhi(rc.Common().Args[0]) {
+				if call, ok := src.(*ssa.Call); ok {
+					if f := call.Common().StaticCallee(); f != nil && f.Name() == "Elem" && strings.HasPrefix(funcFullName(f), "(reflect.Value).") &&
+						len(call.Common().Args) > 0 && call.Common().Args[0] != recv {
+						elemOfOther = w.InstrPos(call)
+					}
+				}
+			}
+		}
+		// a map entry is measured on every round of the iteration: no test inside the loop decides whether a key or a
+		// value is walked
+		condInLoop := ""
+		if kn == "Map" {
+			var nextBlk *ssa.BasicBlock
+			var nextCall ssa.Value
+			eachInstr(sizeof, func(ins ssa.Instruction) {
+				if call, ok := ins.(*ssa.Call); ok && slice[ins.Block()] {
+					if f := call.Common().StaticCallee(); f != nil && f.Name() == "Next" && strings.Contains(funcFullName(f), "reflect.MapIter") {
+						nextBlk, nextCall = ins.Block(), call
+					}
+				}
+			})
+			if nextBlk != nil {
+				for _, rc := range recCalls {
+					if !slice[rc.Block()] {
+						continue
+					}
+					if !nextBlk.Dominates(rc.Block()) {
+						continue
+					}
+					// every round goes through the call: it dominates each back edge of the loop (within this kind's slice)
+					for _, latch := range nextBlk.Preds {
+						if nextBlk.Dominates(latch) && slice[latch] && !rc.Block().Dominates(latch) {
+							condInLoop = w.InstrPos(rc) + " (a round of the loop headed at " + w.InstrPos(nextCall.(ssa.Instruction)) + " can come round without it)"
+						}
+					}
+				}
+			}
+		}
 		var srcs []string
 		for s := range argSrc {
 			srcs = append(srcs, s)
@@ -507,6 +550,12 @@ func runC20(c *Ctx, w *World, r *Report) {
 			if len(recCalls) > 0 {
 				miss = append(miss, "no recursion for a scalar")
 			}
+		}
+		if elemOfOther != "" && (kn == "Ptr" || kn == "Interface") {
+			miss = append(miss, "recursion on Elem() of the value itself: the Elem() at "+elemOfOther+" is taken of another value (a chain of pointers followed in one go loses the header of every pointer in between)")
+		}
+		if condInLoop != "" {
+			miss = append(miss, "every entry of the map measured: the recursive call at "+condInLoop+" is skipped for some entries (keys of one type need not have one size: strings, pointers, interfaces, arrays or structs of them)")
 		}
 		if len(panics) > 0 {
 			// already reported under R-KINDS; recursion facts are meaningless on a panicking slice
